@@ -1,6 +1,30 @@
 //! `ck.*` operations: checksum helpers of etherparse::checksum.
 use crate::util::*;
 use etherparse::checksum::{u32_16bit_word, u64_16bit_word, Sum16BitWords};
+use etherparse::*;
+
+fn arr<const N: usize>(s: &str) -> Option<[u8; N]> {
+    hex(s)?.try_into().ok()
+}
+
+/// all routes to one checksum must agree; prints the value or every route
+fn same(vals: &[(&str, String)]) -> String {
+    if vals.iter().all(|v| v.1 == vals[0].1) {
+        vals[0].1.clone()
+    } else {
+        format!(
+            "routes-differ({})",
+            vals.iter().map(|(n, v)| format!("{}={}", n, v)).collect::<Vec<_>>().join(",")
+        )
+    }
+}
+
+fn r16<E>(r: Result<u16, E>) -> String {
+    match r {
+        Ok(v) => format!("ok({})", v),
+        Err(_) => "err".to_string(),
+    }
+}
 
 pub fn run(op: &str, a: &[&str]) -> Option<String> {
     Some(match (op, a) {
@@ -35,6 +59,217 @@ pub fn run(op: &str, a: &[&str]) -> Option<String> {
                 s.ones_complement().to_be(),
                 s.to_ones_complement_with_no_zero().to_be()
             )
+        }
+        // Sum16BitWords method chain: each part goes through the method of its size
+        // (2 -> add_2bytes, 4 -> add_4bytes, 8 -> add_8bytes, 16 -> add_16bytes, else add_slice)
+        ("ck.s16", parts) => {
+            let mut s = Sum16BitWords::new();
+            for p in parts.iter() {
+                let b = hex(p)?;
+                s = match b.len() {
+                    2 => s.add_2bytes(b.clone().try_into().ok()?),
+                    4 => s.add_4bytes(b.clone().try_into().ok()?),
+                    8 => s.add_8bytes(b.clone().try_into().ok()?),
+                    16 => s.add_16bytes(b.clone().try_into().ok()?),
+                    _ => s.add_slice(&b),
+                };
+            }
+            format!(
+                "{} {}",
+                s.ones_complement().to_be(),
+                s.to_ones_complement_with_no_zero().to_be()
+            )
+        }
+        // IPv4 header checksum from the wire bytes of a header
+        ("ck.w.ipv4", [h]) => {
+            let b = hex(h)?;
+            match Ipv4Header::from_slice(&b) {
+                Err(_) => "err".to_string(),
+                Ok((hdr, _)) => {
+                    let via_slice = Ipv4HeaderSlice::from_slice(&b)
+                        .map(|s| s.to_header().calc_header_checksum());
+                    let mut stored = hdr.clone();
+                    stored.header_checksum = stored.calc_header_checksum();
+                    let wire = stored.to_bytes();
+                    let hl = hdr.header_len();
+                    if wire[..10] != b[..10] || wire[12..hl] != b[12..hl] {
+                        return Some(format!("reencode-differs({})", to_hex(&wire)));
+                    }
+                    same(&[
+                        ("struct", format!("ok({})", hdr.calc_header_checksum())),
+                        ("slice", r16(via_slice)),
+                        ("to_bytes", format!("ok({})", u16::from_be_bytes([wire[10], wire[11]]))),
+                    ])
+                }
+            }
+        }
+        // UDP: header bytes, addresses, payload
+        ("ck.w.udp4", [src, dst, h, pl]) => {
+            let (src, dst, hb, pl) = (arr::<4>(src)?, arr::<4>(dst)?, hex(h)?, hex(pl)?);
+            let hdr = UdpHeader::from_slice(&hb).ok()?.0;
+            let ip = Ipv4Header::new(0, 64, IpNumber::UDP, src, dst).ok()?;
+            let mut th = TransportHeader::Udp(hdr.clone());
+            let upd = th
+                .update_checksum_ipv4(&ip, &pl)
+                .map(|_| th.clone().udp().unwrap().checksum);
+            let with = UdpHeader::with_ipv4_checksum(hdr.source_port, hdr.destination_port, &ip, &pl)
+                .map(|h| h.checksum);
+            same(&[
+                ("raw", r16(hdr.calc_checksum_ipv4_raw(src, dst, &pl))),
+                ("hdr", r16(hdr.calc_checksum_ipv4(&ip, &pl))),
+                ("update", r16(upd)),
+                ("with", r16(with)),
+            ])
+        }
+        ("ck.w.udp6", [src, dst, h, pl]) => {
+            let (src, dst, hb, pl) = (arr::<16>(src)?, arr::<16>(dst)?, hex(h)?, hex(pl)?);
+            let hdr = UdpHeader::from_slice(&hb).ok()?.0;
+            let ip = Ipv6Header {
+                source: src,
+                destination: dst,
+                next_header: IpNumber::UDP,
+                ..Default::default()
+            };
+            let mut th = TransportHeader::Udp(hdr.clone());
+            let upd = th
+                .update_checksum_ipv6(&ip, &pl)
+                .map(|_| th.clone().udp().unwrap().checksum);
+            let with = UdpHeader::with_ipv6_checksum(hdr.source_port, hdr.destination_port, &ip, &pl)
+                .map(|h| h.checksum);
+            same(&[
+                ("raw", r16(hdr.calc_checksum_ipv6_raw(src, dst, &pl))),
+                ("hdr", r16(hdr.calc_checksum_ipv6(&ip, &pl))),
+                ("update", r16(upd)),
+                ("with", r16(with)),
+            ])
+        }
+        // TCP: header bytes (with options), addresses, payload; struct, header slice and slice
+        ("ck.w.tcp4", [src, dst, h, pl]) => {
+            let (src, dst, hb, pl) = (arr::<4>(src)?, arr::<4>(dst)?, hex(h)?, hex(pl)?);
+            let hdr = TcpHeader::from_slice(&hb).ok()?.0;
+            if hdr.to_bytes().as_slice() != hb.as_slice() {
+                return Some(format!("reencode-differs({})", to_hex(&hdr.to_bytes())));
+            }
+            let hs = TcpHeaderSlice::from_slice(&hb).ok()?;
+            let mut all = hb.clone();
+            all.extend_from_slice(&pl);
+            let ts = TcpSlice::from_slice(&all).ok()?;
+            let ip = Ipv4Header::new(0, 64, IpNumber::TCP, src, dst).ok()?;
+            let mut th = TransportHeader::Tcp(hdr.clone());
+            let upd = th
+                .update_checksum_ipv4(&ip, &pl)
+                .map(|_| th.clone().tcp().unwrap().checksum);
+            same(&[
+                ("raw", r16(hdr.calc_checksum_ipv4_raw(src, dst, &pl))),
+                ("hdr", r16(hdr.calc_checksum_ipv4(&ip, &pl))),
+                ("hslice", r16(hs.calc_checksum_ipv4_raw(src, dst, &pl))),
+                ("hslice_ip", r16(hs.calc_checksum_ipv4(
+                    &Ipv4HeaderSlice::from_slice(&ip.to_bytes()).ok()?,
+                    &pl,
+                ))),
+                ("slice", r16(ts.calc_checksum_ipv4(src, dst))),
+                ("update", r16(upd)),
+            ])
+        }
+        ("ck.w.tcp6", [src, dst, h, pl]) => {
+            let (src, dst, hb, pl) = (arr::<16>(src)?, arr::<16>(dst)?, hex(h)?, hex(pl)?);
+            let hdr = TcpHeader::from_slice(&hb).ok()?.0;
+            if hdr.to_bytes().as_slice() != hb.as_slice() {
+                return Some(format!("reencode-differs({})", to_hex(&hdr.to_bytes())));
+            }
+            let hs = TcpHeaderSlice::from_slice(&hb).ok()?;
+            let mut all = hb.clone();
+            all.extend_from_slice(&pl);
+            let ts = TcpSlice::from_slice(&all).ok()?;
+            let ip = Ipv6Header {
+                source: src,
+                destination: dst,
+                next_header: IpNumber::TCP,
+                ..Default::default()
+            };
+            let mut th = TransportHeader::Tcp(hdr.clone());
+            let upd = th
+                .update_checksum_ipv6(&ip, &pl)
+                .map(|_| th.clone().tcp().unwrap().checksum);
+            same(&[
+                ("raw", r16(hdr.calc_checksum_ipv6_raw(src, dst, &pl))),
+                ("hdr", r16(hdr.calc_checksum_ipv6(&ip, &pl))),
+                ("hslice", r16(hs.calc_checksum_ipv6_raw(src, dst, &pl))),
+                ("slice", r16(ts.calc_checksum_ipv6(src, dst))),
+                ("update", r16(upd)),
+            ])
+        }
+        // ICMPv4: a whole message whose header re-encodes to the same bytes
+        ("ck.w.icmp4", [m]) => {
+            let b = hex(m)?;
+            let s = Icmpv4Slice::from_slice(&b).ok()?;
+            let hdr = s.header();
+            let hl = hdr.header_len();
+            if hdr.to_bytes().as_slice() != &b[..hl] {
+                return Some(format!("reencode-differs({})", to_hex(&hdr.to_bytes())));
+            }
+            let pl = s.payload();
+            let mut upd = hdr.clone();
+            upd.checksum = 0;
+            upd.update_checksum(pl);
+            let mut th = TransportHeader::Icmpv4(hdr.clone());
+            let ip = Ipv4Header::new(0, 64, IpNumber::ICMP, [1, 2, 3, 4], [5, 6, 7, 8]).ok()?;
+            let upd2 = th
+                .update_checksum_ipv4(&ip, pl)
+                .map(|_| th.clone().icmpv4().unwrap().checksum);
+            same(&[
+                ("type", format!("ok({})", hdr.icmp_type.calc_checksum(pl))),
+                ("with", format!("ok({})", Icmpv4Header::with_checksum(hdr.icmp_type.clone(), pl).checksum)),
+                ("update", format!("ok({})", upd.checksum)),
+                ("transport", r16(upd2)),
+            ])
+        }
+        // ICMPv6: addresses and a whole message; checksum and the validation of the stored one
+        ("ck.w.icmp6", [src, dst, m]) => {
+            let (src, dst, b) = (arr::<16>(src)?, arr::<16>(dst)?, hex(m)?);
+            let s = Icmpv6Slice::from_slice(&b).ok()?;
+            let hdr = s.header();
+            let hl = hdr.header_len();
+            if hdr.to_bytes().as_slice() != &b[..hl] {
+                return Some(format!("reencode-differs({})", to_hex(&hdr.to_bytes())));
+            }
+            let pl = s.payload();
+            let mut upd = hdr.clone();
+            upd.checksum = 0;
+            let updr = upd.update_checksum(src, dst, pl).map(|_| upd.checksum);
+            let ip = Ipv6Header {
+                source: src,
+                destination: dst,
+                next_header: IpNumber::IPV6_ICMP,
+                ..Default::default()
+            };
+            let mut th = TransportHeader::Icmpv6(hdr.clone());
+            let upd2 = th
+                .update_checksum_ipv6(&ip, pl)
+                .map(|_| th.clone().icmpv6().unwrap().checksum);
+            format!(
+                "{} valid={}",
+                same(&[
+                    ("type", r16(hdr.icmp_type.calc_checksum(src, dst, pl))),
+                    ("with", r16(Icmpv6Header::with_checksum(hdr.icmp_type.clone(), src, dst, pl).map(|h| h.checksum))),
+                    ("update", r16(updr)),
+                    ("transport", r16(upd2)),
+                ]),
+                s.is_checksum_valid(src, dst)
+            )
+        }
+        // IGMP: a whole message whose header re-encodes to the same bytes
+        ("ck.w.igmp", [m]) => {
+            let b = hex(m)?;
+            let (hdr, pl) = IgmpHeader::from_slice(&b).ok()?;
+            let hb = hdr.to_bytes();
+            if hb.as_slice() != &b[..hb.len()] {
+                return Some(format!("reencode-differs({})", to_hex(&hb)));
+            }
+            same(&[
+                ("calc", format!("ok({})", hdr.calc_checksum(pl))),
+                ("with", format!("ok({})", IgmpHeader::with_checksum(hdr.igmp_type.clone(), pl).checksum)),
+            ])
         }
         _ => return None,
     })
